@@ -788,12 +788,14 @@ package webrtc
 //@ func (*PeerConnection).SetRemoteDescription
 //@ props C03
 //@ nosafety
+//@ deadreturn 8
 //@ requires pcValid(pc) && validSignalingState(pc.signalingState) && specDescInv(pc)
 //@ atreturn assert err != nil ==> pc.signalingState == old(pc.signalingState) && ghost(sigEvents) == old(ghost(sigEvents)) && pc.pendingLocalDescription == old(pc.pendingLocalDescription) && pc.pendingRemoteDescription == old(pc.pendingRemoteDescription) && pc.currentLocalDescription == old(pc.currentLocalDescription) && pc.currentRemoteDescription == old(pc.currentRemoteDescription)
 
 //@ func (*PeerConnection).SetLocalDescription
 //@ props C03
 //@ nosafety
+//@ deadreturn 2
 //@ requires pcValid(pc) && validSignalingState(pc.signalingState) && specDescInv(pc)
 //@ atreturn assert err != nil ==> pc.signalingState == old(pc.signalingState) && ghost(sigEvents) == old(ghost(sigEvents)) && pc.pendingLocalDescription == old(pc.pendingLocalDescription) && pc.pendingRemoteDescription == old(pc.pendingRemoteDescription) && pc.currentLocalDescription == old(pc.currentLocalDescription) && pc.currentRemoteDescription == old(pc.currentRemoteDescription)
 
